@@ -187,3 +187,173 @@ def effective_writers(prog, cg, fa, names, adt, field, anchors, readers=False):
             continue
         work.extend(cs)
     return out
+
+
+# ---------------------------------------------------------------------------------------------------------------
+# state roles: where inside the controller object a piece of state lives, found by what an API method changes
+def leaf_term(v, bits=None):
+    """term of a scalar leaf of a symbolic object (lazily materialised leaves are SymObj placeholders)"""
+    from zx.walk import SymObj as _SO
+    if isinstance(v, T):
+        return v
+    if isinstance(v, _SO) and isinstance(v.ty, tuple) and v.ty and v.ty[0] == "int":
+        return tm.sym(v.name, v.ty[1] if v.ty[1] else 64)
+    if isinstance(v, _SO) and isinstance(v.ty, tuple) and v.ty and v.ty[0] == "bool":
+        return tm.sym(v.name, 1)
+    return None
+
+
+def tree_get(v, path):
+    from zx.walk import Agg as _Agg
+    for i in path:
+        if not isinstance(v, _Agg) or i >= len(v.fields):
+            return None
+        v = v.fields[i]
+    return v
+
+
+def tree_diff(prog, a, b, path=(), out=None):
+    """paths of the leaves in which object tree b differs from a (a may still be lazily symbolic where b is expanded)"""
+    from zx.walk import Agg as _Agg, SymObj as _SO
+    if out is None:
+        out = []
+    if a is b:
+        return out
+    if isinstance(a, _Agg) and isinstance(b, _Agg) and len(a.fields) == len(b.fields) and a.variant == b.variant:
+        for i, (x, y) in enumerate(zip(a.fields, b.fields)):
+            tree_diff(prog, x, y, path + (i,), out)
+        return out
+    if isinstance(a, _SO) and isinstance(b, _SO) and a.name == b.name:
+        return out
+    if isinstance(a, _SO) and isinstance(b, _Agg):
+        # a is the not yet expanded symbolic value: its children are named after it
+        kind = b.kind
+        if kind and kind[0] == "array":
+            for i, y in enumerate(b.fields):
+                tree_diff(prog, _Named("%s[%d]" % (a.name, i)), y, path + (i,), out)
+            return out
+        if kind and kind[0] == "adt" and prog.adt(kind[1]) and len(prog.adt(kind[1])["variants"]) == 1:
+            fs = prog.adt(kind[1])["variants"][0]["fields"]
+            if len(fs) == len(b.fields):
+                for i, y in enumerate(b.fields):
+                    tree_diff(prog, _Named("%s.%s" % (a.name, fs[i]["name"])), y, path + (i,), out)
+                return out
+    if isinstance(a, _Named):
+        if isinstance(b, _SO) and b.name == a.name:
+            return out
+        if isinstance(b, T) and b.op == "sym" and b.args[0] == a.name:
+            return out
+        if isinstance(b, _Agg):
+            return tree_diff(prog, _SO(a.name, None), b, path, out) if False else _diff_named(prog, a, b, path, out)
+    ta, tb = leaf_term(a), leaf_term(b)
+    if ta is not None and ta is tb:
+        return out
+    out.append(path)
+    return out
+
+
+class _Named(object):
+    """the unexpanded symbolic value called `name`"""
+    def __init__(self, name):
+        self.name = name
+
+
+def _diff_named(prog, a, b, path, out):
+    kind = b.kind
+    if kind and kind[0] == "array":
+        for i, y in enumerate(b.fields):
+            tree_diff(prog, _Named("%s[%d]" % (a.name, i)), y, path + (i,), out)
+        return out
+    if kind and kind[0] == "adt" and prog.adt(kind[1]) and len(prog.adt(kind[1])["variants"]) == 1:
+        fs = prog.adt(kind[1])["variants"][0]["fields"]
+        if len(fs) == len(b.fields):
+            for i, y in enumerate(b.fields):
+                tree_diff(prog, _Named("%s.%s" % (a.name, fs[i]["name"])), y, path + (i,), out)
+            return out
+    out.append(path)
+    return out
+
+
+def tree_name(prog, root_name, adt_path, targs, path):
+    """symbol name of the leaf at an index path (the naming scheme of lazily expanded symbolic objects)"""
+    name = root_name
+    ty = ("adt", adt_path, targs)
+    for i in path:
+        if ty[0] == "adt":
+            f = prog.adt(ty[1])["variants"][0]["fields"][i]
+            name += "." + f["name"]
+            ty = f["ty"]
+        elif ty[0] == "array":
+            name += "[%d]" % i
+            ty = ty[1]
+        else:
+            return None
+    return name, ty
+
+
+def field_chain(prog, adt_path, targs, path):
+    """[(adt path, field name)] of the struct fields along an index path into an object of type adt (array indices end
+    the chain)"""
+    chain = []
+    ty = ("adt", adt_path, targs)
+    for i in path:
+        if ty[0] != "adt":
+            break
+        a = prog.adt(ty[1])
+        if not a or len(a["variants"]) != 1:
+            break
+        f = a["variants"][0]["fields"][i]
+        chain.append((ty[1], f["name"]))
+        ty = f["ty"]
+    return chain
+
+
+def keyboard_roles(prog, names):
+    """Where the three key matrices and the CAPS SHIFT hold mask live inside the controller, found by role: the 8-byte
+    array a key press through send_key / send_sinclair_key / send_compound_key changes, and the 32-bit word
+    send_compound_key changes.  {role: (index path, symbol-name prefix, [(adt, field)...] chain)}; roles: main, sinclair,
+    extended, mask.  Raises KeyError when a sender does not change exactly such a piece of state."""
+    from zx.walk import Walker as _W, Ref as _Ref, Agg as _Agg
+    H = (("param", "H", 0),)
+    KEY = prog.adt_path("rustzx_core", "ZXKey")
+    SK = prog.adt_path("rustzx_core", "SinclairKey")
+    SJ = prog.adt_path("rustzx_core", "SinclairJoyNum")
+    CK = prog.adt_path("rustzx_core", "CompoundKey")
+    ev = lambda adt, name: _Agg(("adt", adt), prog.variant_index(adt, name), ())
+
+    def changed(method, args):
+        w = _W(prog)
+        st = controller_state(w, prog, names, "Sinclair48K")
+        init = st.store[CTL]
+        rs = w.run(prog.fn(names.ctl(method)), [_Ref(CTL, (), True)] + args, genv=GENV, state=st)
+        if not rs or any(r.outcome != "return" for r in rs):
+            raise KeyError("anchor: %s does not return on every path" % method)
+        out = set()
+        for r in rs:
+            out |= set(tree_diff(prog, init, r.store[CTL]))
+        return out
+    roles = {}
+
+    def matrix(role, paths):
+        arrs = set()
+        for p in paths:
+            nm = tree_name(prog, "ctl", names.CTL, H, p)
+            if nm and nm[1] == ("int", 8, False, False) and len(p) >= 2:
+                par = tree_name(prog, "ctl", names.CTL, H, p[:-1])
+                if par and par[1][0] == "array" and par[1][2] == 8:
+                    arrs.add(p[:-1])
+        if len(arrs) != 1:
+            raise KeyError("anchor: the %s key matrix is not a single [u8; 8] array of the controller state: %s" % (role, sorted(paths)))
+        p = arrs.pop()
+        roles[role] = (p, tree_name(prog, "ctl", names.CTL, H, p)[0], field_chain(prog, names.CTL, H, p))
+    matrix("main", changed("send_key", [ev(KEY, "G"), K(1, 1)]))
+    matrix("sinclair", changed("send_sinclair_key", [ev(SJ, prog.variant_names(SJ)[0]), ev(SK, "Fire"), K(1, 1)]))
+    cp = changed("send_compound_key", [ev(CK, "Delete"), K(1, 1)])
+    matrix("extended", cp)
+    words = [p for p in cp if (tree_name(prog, "ctl", names.CTL, H, p) or (None, None))[1] == ("int", 32, False, False)]
+    if len(words) != 1:
+        raise KeyError("anchor: send_compound_key does not change exactly one 32-bit hold mask: %s" % sorted(cp))
+    roles["mask"] = (words[0], tree_name(prog, "ctl", names.CTL, H, words[0])[0], field_chain(prog, names.CTL, H, words[0]))
+    if len(set(v[0] for v in roles.values())) != 4:
+        raise KeyError("anchor: the key matrices are not distinct pieces of state: %s" % roles)
+    return roles
